@@ -199,9 +199,12 @@ def is_cache_attr(cls, name):
         return False
 
 
-def deep_fp(x):
+def deep_fp(x, raw=True):
     """Structural walk over the private state: {path: token}.  Buffers are
-    checksummed raw, so an in-place write shows even under a mask."""
+    checksummed raw, so an in-place write shows even under a mask.  With
+    raw=False masked arrays are checksummed with the masked elements blanked
+    (for comparing two different objects: what lies under a mask of a freshly
+    computed array is uninitialised memory)."""
     flat = {}
     onpath = set()
 
@@ -216,7 +219,7 @@ def deep_fp(x):
             flat[path] = "np:" + str(o.dtype) + ":" + repr(o.item())
             return
         if isinstance(o, np.ndarray):
-            flat[path] = json.dumps(arr_token(o))
+            flat[path] = json.dumps(arr_token(o) if raw or not np.ma.isMA(o) else ["vis"] + values_token(o))
             return
         if id(o) in onpath:
             flat[path] = "<cycle>"
@@ -252,8 +255,8 @@ def deep_fp(x):
     return flat
 
 
-def fp(x):
-    return {"pub": pub_fp(x), "deep": deep_fp(x)}
+def fp(x, raw=True):
+    return {"pub": pub_fp(x), "deep": deep_fp(x, raw)}
 
 
 def diff_pub(a, b, path="", out=None, limit=6):
@@ -1157,7 +1160,7 @@ def run_protocol_case(pool, row, x0, kind, mname, variant, F0):
         else:
             row["placeholder_result"] = has_placeholder(r)
             row["result_is_receiver"] = r is x
-            k3, d3 = compare(fp(r), fp(z))
+            k3, d3 = compare(fp(r, raw=False), fp(z, raw=False))
             if k3:
                 row["result_differs"] = k3
                 row["result_diff"] = d3
